@@ -90,7 +90,7 @@ def gen_plan(wl, fr, idx):
 def row_settings(plan, i):
     """(settings dict without return_samples, return_samples) the reference uses for row i."""
     if plan['entry'] == 'object':
-        s = ref.object_settings(plan['ctor'])
+        s = ref.object_settings_checked(plan['ctor'], 'group')
         rs = s.pop('return_samples')
         return s, rs
     opt = plan.get('options')
